@@ -170,6 +170,14 @@ set_hdr_error(kdump_ctx_t *ctx, kdump_status status,
 			 type, idx, (unsigned long long) offset);
 }
 
+static kdump_status
+set_entsz_error(kdump_ctx_t *ctx, const char *type, size_t entsz)
+{
+	return set_error(ctx, KDUMP_ERR_CORRUPT,
+			 "ELF %s header entries too small: %zu bytes",
+			 type, entsz);
+}
+
 static const char *
 mach2arch(unsigned mach, int elfclass)
 {
@@ -1259,6 +1267,10 @@ init_elf32(kdump_ctx_t *ctx, Elf32_Ehdr *ehdr)
 	if (offset != 0 && (shnum == 0 || phnum == PN_XNUM)) {
 		Elf32_Shdr *sect;
 
+		if (dump16toh(ctx, ehdr->e_shentsize) < sizeof(Elf32_Shdr))
+			return set_entsz_error(ctx, "section",
+				dump16toh(ctx, ehdr->e_shentsize));
+
 		ret = flatmap_get_chunk(ctx->shared->flatmap, &fch,
 					dump16toh(ctx, ehdr->e_shentsize),
 					0, offset);
@@ -1284,6 +1296,8 @@ init_elf32(kdump_ctx_t *ctx, Elf32_Ehdr *ehdr)
 
 	offset = dump32toh(ctx, ehdr->e_phoff);
 	entsz = dump16toh(ctx, ehdr->e_phentsize);
+	if (phnum && entsz < sizeof(Elf32_Phdr))
+		return set_entsz_error(ctx, "program", entsz);
 	for (i = 0; i < phnum; ++i) {
 		Elf32_Phdr *prog;
 		struct load_segment *pls;
@@ -1310,6 +1324,8 @@ init_elf32(kdump_ctx_t *ctx, Elf32_Ehdr *ehdr)
 
 	offset = dump32toh(ctx, ehdr->e_shoff);
 	entsz = dump16toh(ctx, ehdr->e_shentsize);
+	if (shnum && entsz < sizeof(Elf32_Shdr))
+		return set_entsz_error(ctx, "section", entsz);
 	for (i = 0; i < shnum; ++i) {
 		Elf32_Shdr *sect;
 
@@ -1352,6 +1368,10 @@ init_elf64(kdump_ctx_t *ctx, Elf64_Ehdr *ehdr)
 	if (offset != 0 && (shnum == 0 || phnum == PN_XNUM)) {
 		Elf64_Shdr *sect;
 
+		if (dump16toh(ctx, ehdr->e_shentsize) < sizeof(Elf64_Shdr))
+			return set_entsz_error(ctx, "section",
+				dump16toh(ctx, ehdr->e_shentsize));
+
 		ret = flatmap_get_chunk(ctx->shared->flatmap, &fch,
 					dump16toh(ctx, ehdr->e_shentsize),
 					0, offset);
@@ -1377,6 +1397,8 @@ init_elf64(kdump_ctx_t *ctx, Elf64_Ehdr *ehdr)
 
 	offset = dump64toh(ctx, ehdr->e_phoff);
 	entsz = dump16toh(ctx, ehdr->e_phentsize);
+	if (phnum && entsz < sizeof(Elf64_Phdr))
+		return set_entsz_error(ctx, "program", entsz);
 	for (i = 0; i < phnum; ++i) {
 		Elf64_Phdr *prog;
 		struct load_segment *pls;
@@ -1403,6 +1425,8 @@ init_elf64(kdump_ctx_t *ctx, Elf64_Ehdr *ehdr)
 
 	offset = dump64toh(ctx, ehdr->e_shoff);
 	entsz = dump16toh(ctx, ehdr->e_shentsize);
+	if (shnum && entsz < sizeof(Elf64_Shdr))
+		return set_entsz_error(ctx, "section", entsz);
 	for (i = 0; i < shnum; ++i) {
 		Elf64_Shdr *sect;
 
